@@ -101,7 +101,40 @@ pub struct BatchResult {
     pub hashes: Vec<(u64, u64)>,
 }
 
+/// what every worker is executing right now: (run index + 1, start in ms since batch start); 0 = idle
+pub struct Progress {
+    pub slots: Vec<(AtomicU64, AtomicU64)>,
+    pub done: AtomicU64,
+    pub start: Instant,
+}
+
+impl Progress {
+    pub fn new(workers: usize) -> Arc<Progress> {
+        Arc::new(Progress { slots: (0..workers.max(1)).map(|_| (AtomicU64::new(0), AtomicU64::new(0))).collect(), done: AtomicU64::new(0), start: Instant::now() })
+    }
+
+    /// a run that has been executing for longer than `limit_s`: (index, seconds)
+    pub fn stuck(&self, limit_s: u64) -> Option<(u64, u64)> {
+        let now = self.start.elapsed().as_millis() as u64;
+        for (idx, st) in &self.slots {
+            let i = idx.load(Ordering::Relaxed);
+            if i > 0 {
+                let age = now.saturating_sub(st.load(Ordering::Relaxed)) / 1000;
+                if age >= limit_s {
+                    return Some((i - 1, age));
+                }
+            }
+        }
+        None
+    }
+}
+
 pub fn run_batch(sc: &'static dyn Scenario, tier: Tier, batch_seed: u64, runs: u64, cap_s: u64, workers: usize, keep_hashes: bool) -> BatchResult {
+    run_batch_with(sc, tier, batch_seed, runs, cap_s, workers, keep_hashes, Progress::new(workers))
+}
+
+#[allow(clippy::too_many_arguments)]
+pub fn run_batch_with(sc: &'static dyn Scenario, tier: Tier, batch_seed: u64, runs: u64, cap_s: u64, workers: usize, keep_hashes: bool, progress: Arc<Progress>) -> BatchResult {
     let next = Arc::new(AtomicU64::new(0));
     let stop = Arc::new(AtomicBool::new(false));
     struct Shared {
@@ -126,10 +159,11 @@ pub fn run_batch(sc: &'static dyn Scenario, tier: Tier, batch_seed: u64, runs: u
     }));
     let start = Instant::now();
     let mut handles = vec![];
-    for _ in 0..workers.max(1) {
+    for slot in 0..workers.max(1) {
         let next = next.clone();
         let stop = stop.clone();
         let shared = shared.clone();
+        let progress = progress.clone();
         let h = std::thread::Builder::new()
             .stack_size(64 << 20)
             .spawn(move || {
@@ -162,7 +196,11 @@ pub fn run_batch(sc: &'static dyn Scenario, tier: Tier, batch_seed: u64, runs: u
                     }
                     let seed = run_seed(batch_seed, sc.id(), i);
                     let ctx = RunCtx { tier, index: i, render: false, verbose: false, step_cap: None };
+                    progress.slots[slot].1.store(progress.start.elapsed().as_millis() as u64, Ordering::Relaxed);
+                    progress.slots[slot].0.store(i + 1, Ordering::Relaxed);
                     let out = sc.run(seed, Chooser::from_seed(seed), &ctx);
+                    progress.slots[slot].0.store(0, Ordering::Relaxed);
+                    progress.done.fetch_add(1, Ordering::Relaxed);
                     local_done += 1;
                     local_sim += out.sim_ms;
                     if out.nontrivial {
@@ -372,7 +410,9 @@ pub fn replay_file(sc: &dyn Scenario, path: &str) -> Result<ReplayOutcome, Strin
         .map(|e| e.as_arr().and_then(|a| a.get(1)).and_then(|v| v.as_i64()).unwrap_or(0) as u32)
         .collect();
     let ctx = RunCtx { tier, index, render: true, verbose: true, step_cap: None };
-    let out = sc.run(seed, Chooser::from_trace(seed, values), &ctx);
+    let from_seed = matches!(doc.get("from_seed"), Some(J::Bool(true)));
+    let ch = if from_seed { Chooser::from_seed(seed) } else { Chooser::from_trace(seed, values) };
+    let out = sc.run(seed, ch, &ctx);
     let want_hash = doc.get("log_hash").and_then(|h| h.as_str()).unwrap_or("");
     let got_hash = format!("{:016x}", out.log_hash);
     let want_sig = doc.get("signature").and_then(|h| h.as_str()).unwrap_or("");
